@@ -411,6 +411,9 @@ func (o *openMessage) encode() ([]byte, error) {
 		}
 		params = append(params, p...)
 	}
+	if len(params) > math.MaxUint8 {
+		return nil, errors.New("optional parameters exceed 255 bytes")
+	}
 	b = append(b, uint8(len(params)))
 	b = append(b, params...)
 	return prependHeader(b, openMessageType), nil
@@ -509,10 +512,16 @@ func (c *capabilityOptionalParam) encode() ([]byte, error) {
 	caps := make([]byte, 0)
 	if len(c.capabilities) > 0 {
 		for _, capability := range c.capabilities {
+			if len(capability.Value) > math.MaxUint8 {
+				return nil, errors.New("capability value exceeds 255 bytes")
+			}
 			caps = append(caps, capability.encode()...)
 		}
 	} else {
 		return nil, errors.New("empty capabilities in capability optional param")
+	}
+	if len(caps) > math.MaxUint8 {
+		return nil, errors.New("capabilities exceed 255 bytes")
 	}
 	b = append(b, capabilityOptionalParamType)
 	b = append(b, uint8(len(caps)))
